@@ -45,10 +45,12 @@ class Library:
         self.math = ModVal("math", {"sqrt": lambda x: ssqrt(x), "pi": Fraction(_math.pi), "inf": _math.inf,
                                     "log10": lambda x: sym.slog10(x)})
         self.time = ModVal("time", {"time": lambda: Opaque("time"), "perf_counter": lambda: Opaque("time")})
+        self.fft = ModVal("numpy.fft", self._fft_table())
+        self.np.table["fft"] = self.fft
         self.mods.update({"numpy": self.np, "np": self.np, "quaternion": self.quaternion,
                           "scipy": self.scipy, "scipy.sparse": self.sparse, "math": self.math, "time": self.time,
                           "scipy.linalg": self.scipy.table["linalg"],
-                          "numpy.fft": ModVal("numpy.fft", {}),
+                          "numpy.fft": self.fft,
                           "typing": ModVal("typing", {k: Opaque("typing") for k in ("List", "Tuple", "Optional", "Dict", "Any")}),
                           "__future__": ModVal("__future__", {"annotations": None}),
                           "os": ModVal("os", {}), "sys": ModVal("sys", {})})
@@ -421,10 +423,16 @@ class Library:
                 raise OutOfReach("np.roll form")
             n = a.vshape[axis]
             snap = a._snapshot()
+            # np.roll(x, s)[i] = x[(i - s) mod n]; for |s| <= n the reduction is one conditional step
+            one_period = cur().valid(sand(shift <= n, shift >= -n)) is True
 
             def fn(vi):
                 vi = list(vi)
-                vi[axis] = (vi[axis] - shift) % n      # np.roll(x, s)[i] = x[(i - s) mod n]
+                j = vi[axis] - shift
+                if one_period:
+                    vi[axis] = ix.ite(j >= n, j - n, ix.ite(j < 0, j + n, j))
+                else:
+                    vi[axis] = j % n
                 return snap(tuple(vi))
             return ix.IArr.from_fn(a.vshape, fn, quat=a.quat, cplx=a.cplx)
 
@@ -549,6 +557,38 @@ class Library:
 
         return {"mean": np_mean, "clip": np_clip, "block": np_block, "array": np_array, "roll": np_roll, "zeros_like": np_zeros_like, "empty_like": np_zeros_like, "empty": np_empty,
                 "concatenate": np_concatenate, "real": np_real, "imag": np_imag, "any": np_any, "allclose": np_allclose}
+
+    # -- FFT (axiomatised): fft2 of a real array is an uninterpreted complex function of the frequency;
+    #    ifft2 of a spectrum is an uninterpreted spatial array; the registry records arguments so that
+    #    contracts can state  ifft2(fft2(x) * fft2(h)) = x (*) h  (DFT convolution theorem, assumption A3)
+    def _fft_table(self):
+        from . import idx as ix
+
+        def reg():
+            return cur().ghost.setdefault("fft", {"fwd": [], "inv": []})
+
+        def fft2(x):
+            if not isinstance(x, ix.IArr) or x.ndim != 2 or x.quat:
+                raise OutOfReach("fft2 form")
+            k = len(reg()["fwd"])
+            fre = z3.Function(f"FT{k}_re", z3.IntSort(), z3.IntSort(), z3.RealSort())
+            fim = z3.Function(f"FT{k}_im", z3.IntSort(), z3.IntSort(), z3.RealSort())
+            out = ix.IArr.from_fn(list(x.vshape), lambda vi: ix.CScal(SReal(fre(*[SInt.lift(ix.as_int(i)) for i in vi])),
+                                                                     SReal(fim(*[SInt.lift(ix.as_int(i)) for i in vi]))), cplx=True)
+            reg()["fwd"].append({"src": x._snapshot(), "shape": list(x.vshape), "out": out, "src_cplx": x.cplx})
+            return out
+
+        def ifft2(s):
+            if not isinstance(s, ix.IArr) or s.ndim != 2 or not s.cplx:
+                raise OutOfReach("ifft2 form")
+            k = len(reg()["inv"])
+            gre = z3.Function(f"IFT{k}_re", z3.IntSort(), z3.IntSort(), z3.RealSort())
+            gim = z3.Function(f"IFT{k}_im", z3.IntSort(), z3.IntSort(), z3.RealSort())
+            out = ix.IArr.from_fn(list(s.vshape), lambda vi: ix.CScal(SReal(gre(*[SInt.lift(ix.as_int(i)) for i in vi])),
+                                                                     SReal(gim(*[SInt.lift(ix.as_int(i)) for i in vi]))), cplx=True)
+            reg()["inv"].append({"spec": s._snapshot(), "shape": list(s.vshape), "out": out, "re": gre, "im": gim})
+            return out
+        return {"fft2": fft2, "ifft2": ifft2}
 
     # allocation hook: the active domain decides what np.zeros / np.eye produce
     def alloc(self, what, shape, dtype):
